@@ -30,7 +30,7 @@ checks = {
  'C14': dict(cat='exploration', tech='alias monitor: reflection walk of reachable addresses + scrambling of every mutable location, snapshot comparison of later reads (race detector in thorough)',
    text='Objects of generated shapes are stored, then the caller copy and every returned copy are scrambled; later reads must equal the snapshot and share no address with earlier copies; cached reads must equal the decoded file.', ref='4/C14'),
  'C18': dict(cat='exploration', tech='independent on-disk decoder + golden corpus written by the pinned release; model sweep on goldens',
-   text='12 golden directories written by the pinned release must open with identical contents, full search matrix, constraints, and stay loadable after writes; directories written by the current code are walked by an independent decoder that encodes the pinned format.', ref='4/C18'),
+   text='14 golden directories written by the pinned release must open with identical contents, full search matrix, constraints, and stay loadable after writes; directories written by the current code are walked by an independent decoder that encodes the pinned format.', ref='4/C18'),
  'C19': dict(cat='exploration', tech='mutation fuzzing of directories and search arguments under recover() and a CPU-time hang guard, child-per-batch isolation; model cross-check of results of unevaluable queries',
    text='Thousands of byte- and JSON-level mutants of valid directories plus stray entries, and a slice of the field x operator x probe-kind cross product, are driven through ~70 API calls each under panic/hang guards.', ref='4/C19'),
  'C05': dict(cat='fault_enumeration', tech='FS-shim crash snapshotter: every crash state (torn writes included) of each generated history materialised and judged through a fresh handle + independent decoder',
@@ -40,10 +40,10 @@ checks = {
  'C10': dict(cat='exploration', tech='virtual-clock monitor (time.Sleep of the package parked on a semaphore): flusher deadlines decided in flusher iterations; independent directory decoder; second handle',
    text='The flusher only runs when the history ticks the virtual clock, so visibility with a frozen flusher, threshold- and timeout-driven flushes, Close/FlushAll completeness and never-resurrected deletes are decided without wall-clock time.', ref='4/C10'),
  'C17': dict(cat='exploration', tech='tree-hash monitor + error-class oracle over shape pairs; model sweep + child survival over live settings switches with pending writes and flusher ticks',
-   text='8 shape changes x 6 stored configurations x 18 operations must be refused with ErrStructureChanged and leave every byte untouched; constraint/extension changes are refused; Create switching cache/async on a live handle with pending writes must lose nothing.', ref='4/C17'),
+   text='12 shape changes x 6 stored configurations x 18 operations must be refused with ErrStructureChanged and leave every byte untouched; constraint/extension changes are refused; Create switching cache/async on a live handle with pending writes must lose nothing.', ref='4/C17'),
  'C08': dict(cat='exploration', tech='Go race detector over perturbed concurrent workloads + porcupine linearizability check of client-boundary histories against a sequential model; invariant hook at the join',
    text='Thousands of short multi-client histories (incl. first-access storms after Open and chained search refinements) run under -race with injected yields; single-lock operations are checked for linearizability with porcupine, compound ones with a weaker per-object oracle and the index invariant hook.', ref='4/C08'),
- 'C09': dict(cat='exploration', tech='lock-discipline monitor on every mutex operation of the package (recursive acquisition, lock-order inversion, wait-for cycle) over a reflection-driven coverage walk and contention stress',
+ 'C09': dict(cat='exploration', tech='lock-discipline monitor on every mutex and WaitGroup operation of the package (recursive acquisition, lock-order inversion, wait-for cycle, lock leak, WaitGroup deadlock, busy loop under the lock, fate of spawned goroutines) over a reflection-driven coverage walk and contention stress incl. Close under readers',
    text='A single execution of each exported method under the monitor decides its lock discipline for every schedule (a recursive RLock is a deadlock waiting for a writer); contention stress adds actual wait-for-cycle detection. Undriven call paths are not seen.', ref='4/C09'),
 }
 notes = {}
